@@ -847,5 +847,83 @@ def c04_chief_ray(ctx):
     from .C04 import chief_ray as _r
     return _r(ctx)
 
-RULES = [c04_chief_ray, c04_invariant, c01_media_chain, no_stale, lazy_def_use, location, formulas_and_degrees, identities,
+CONSUMERS_OF_N = ('Aberrations._precalculations', 'Paraxial.invariant')
+
+
+def mirror_index(ctx):
+    """'mirrors treated as index sign reversal': after a reflection the ray
+    travels towards -z and every n u product carries the sign of n.  The
+    library reflects with u' = -u - 2y/R and keeps all indices positive, so
+    formulas that multiply slopes by Optic.n() get the wrong sign (or a zero
+    index difference) after an odd number of mirrors."""
+    P = ctx.P
+    res = Result('MIRROR-INDEX', 'quantities of the form n u (magnification, '
+                 'Lagrange invariant, Seidel pre-calculations) use an index '
+                 'that changes sign at every mirror')
+    fn = P.func('Optic.n')
+    res.saw(fn)
+    signed = any(isinstance(x, ast.Attribute) and x.attr == 'is_reflective'
+                 for x in ast.walk(fn.node))
+    consumers = CONSUMERS_OF_N
+    for q in consumers:
+        f = P.func(q)
+        res.saw(f)
+        uses = [c for c in ast.walk(f.node) if isinstance(c, ast.Call) and
+                unparse(c.func) == 'self.optic.n']
+        local_sign = any(isinstance(x, ast.Attribute) and
+                         x.attr == 'is_reflective' for x in ast.walk(f.node))
+        if not uses:
+            res.ok(f'{q}: does not use Optic.n()')
+        elif signed or local_sign:
+            res.ok(f'{q}: index carries the propagation direction')
+        else:
+            res.fail(ctx.finding(
+                'MIRROR-INDEX', f, uses[0],
+                f'{q} multiplies paraxial slopes by Optic.n(), which is '
+                f'positive in every space: after an odd number of mirrors '
+                f'the product n u has the wrong sign (magnification +0.5 '
+                f'instead of -0.5 for a concave mirror, invariant changing '
+                f'sign at each mirror, n\' - n = 0 at a mirror in the Seidel '
+                f'terms)', construct=f'{q}: unsigned index after mirrors'))
+    return res
+
+
+def operand_index(ctx):
+    """AberrationOperand.X(optic, surface_number): the term arrays hold the
+    surfaces 1 .. N-1 (slot 0 = surface 1), and surface numbers count from
+    the object surface 0 everywhere else in the library, so surface k is slot
+    k - 1 - the offset the sibling wrapper `seidels` applies."""
+    P = ctx.P
+    res = Result('OPERAND-INDEX', 'per-surface aberration operands return '
+                 'the term of the surface they are asked for: slot '
+                 'surface_number - 1')
+    c = P.classes['AberrationOperand']
+    n = 0
+    bad = []
+    for m in c.methods.values():
+        if 'surface_number' not in [a.arg for a in m.node.args.args]:
+            continue
+        n += 1
+        res.saw(m)
+        subs = [x for x in ast.walk(m.node) if isinstance(x, ast.Subscript)]
+        idx = unparse(subs[0].slice) if subs else None
+        if idx in ('surface_number - 1',):
+            res.ok(f'{m.name}: [{idx}]')
+        else:
+            bad.append((m, idx))
+    if n < 12:
+        raise AnalysisError('OPERAND-INDEX: per-surface operands not found')
+    if bad:
+        m0 = bad[0][0]
+        res.fail(ctx.finding(
+            'OPERAND-INDEX', m0, m0.node,
+            f'{len(bad)} per-surface operands (TSC ... TchC) index the term '
+            f'arrays with [{bad[0][1]}]: AberrationOperand.TSC(optic, 1) '
+            f'returns the term of surface 2 and the last lens surface raises '
+            f'IndexError, while seidels() uses [seidel_number - 1]',
+            construct='per-surface operand index'))
+    return res
+
+
+RULES = [operand_index, mirror_index, c04_chief_ray, c04_invariant, c01_media_chain, no_stale, lazy_def_use, location, formulas_and_degrees, identities,
          operand_wrap]
